@@ -35,7 +35,7 @@ NS = '<model: not set>'          # model-side sentinel (survives deepcopy, unlik
 TYPES = {
     'int': (int, [-1, 7], 5),
     'uint': ('uint', [0, 5], 3),
-    'float': (float, [0.5, -2.0, 3], 1.5),
+    'float': (float, [0.1, -2.0, 3], 1.5),
     'bool': (bool, [True, False], False),
     'obj': ('obj', [None, 'x', [1]], 'dflt'),
 }
